@@ -208,6 +208,35 @@ extern "C" int monitor()
   return 0;
 }
 
+// two waiters have taken the monitor and wait; two set() calls follow: each of them releases a waiter
+static uint mon2Waiter(void*)
+{
+  g_monitor->lock();
+  bool ok = g_monitor->wait();
+  if(ok) { uint32 w = Atomic::increment(g_waitsOk); vf_assert(w <= g_sets, "successful waits never outnumber set() calls"); }
+  g_monitor->unlock();
+  return ok;
+}
+static uint mon2Setter(void*)
+{
+  while(vf_cond_waiters() < 2) Thread::yield();          // both waiters are blocked inside wait()
+  Atomic::increment(g_sets); g_monitor->set();
+  Atomic::increment(g_sets); g_monitor->set();
+  return 0;
+}
+extern "C" int monitor2()
+{
+  {
+    Monitor m; g_monitor = &m; g_sets = 0; g_waitsOk = 0;
+    Thread w1, w2, s;
+    w1.start(mon2Waiter, 0); w2.start(mon2Waiter, 0); s.start(mon2Setter, 0);
+    uint r1 = w1.join(), r2 = w2.join(); s.join();          // a waiter left blocked is reported by the scheduler (deadlock)
+    vf_assert(r1 == 1 && r2 == 1, "each set() issued after the waiters have taken the monitor releases a waiter");
+  }
+  vf_reach("end");
+  return 0;
+}
+
 // ------------------------------------------------------------------------------------------------ Thread: join returns the started function's result
 static volatile uint32 g_ranA, g_ranB;
 struct RunA { uint run() { Atomic::increment(g_ranA); return 1; } };
